@@ -302,6 +302,8 @@ class Interp:
         if k in ('icast', 'cast'):
             v = self.ev(e['e'], fr)
             ck = e['ck']
+            if v is UNKNOWN and 'cv' in e and ck in ('NoOp', 'IntegralCast'):
+                return int(e['cv'])      # a constant the compiler folded (e.g. value-initialised scalar `T{}`)
             if ck == 'LValueToRValue':
                 return self.read(v, fr, e)
             if ck in ('IntegralToBoolean', 'PointerToBoolean'):
